@@ -244,3 +244,81 @@ def check_C12(ctx):
                   "the real TimingPoints decoder (and via the public state API, HitObjects and Beatmap) and the four lists compared with "
                   "the prediction; non-trivial = distinct ([General], sequence) with at least one accepted line; long random unsorted "
                   "sequences are validated line by line by Trace_TimingLines")
+
+
+# ----------------------------------------------------------------------------
+def hitobj_cases(ctx, alpha, n, maxlines, clear=True, bykind=True, emit=True, invariants=("RejectedHaveNoEffect", "ObjShape"),
+                 expect_violation=False):
+    name = "MC_HitObjectLine_%s%d_%d%s%s" % (alpha, n, maxlines, "" if clear else "_noclear", "" if bykind else "_flag")
+    cases = os.path.join(ctx.work, name + ".ndjson")
+    body = cases + ".body"
+    for p in (cases, body):
+        if os.path.exists(p):
+            os.remove(p)
+    cfg = dict(spec="Spec", invariants=list(invariants),
+               constants=dict(AlphaName='"%s"' % alpha, AlphaN=str(n), MaxLines=str(maxlines),
+                              ClearOnEntry="TRUE" if clear else "FALSE", LastByKind="TRUE" if bykind else "FALSE",
+                              Emit="TRUE" if emit else "FALSE"))
+    r = tlc(ctx, "HitObjectLine", name, cfg, workers=14, timeout=3000, cases_file=body if emit else None,
+            expect_violation=expect_violation, count=not expect_violation)
+    if not emit:
+        return None
+    if r["alpha"] is None:
+        raise ToolError("HitObjectLine did not print its alphabet")
+    with open(cases, "w") as f:
+        f.write(json.dumps({"alpha": r["alpha"]}) + "\n")
+        with open(body) as b:
+            for ln in b:
+                f.write(ln)
+    os.remove(body)
+    return cases
+
+
+def check_C14(ctx):
+    thorough = ctx.tier == "thorough"
+    for m in ("PathString", "Samples", "HitObjectLine"):
+        sany(ctx, m)
+    plan = [("typesquick", 0, 1), ("combo", 0, 3), ("num", 0, 2), ("bank", 0, 1), ("nodes", 0, 1),
+            ("pathx", 3, 1), ("path", 4, 1)]
+    if thorough:
+        plan = [("typesfull", 0, 1), ("typesquick", 0, 1), ("combo", 0, 4), ("num", 0, 3), ("bank", 0, 2), ("nodes", 0, 2),
+                ("pathx", 4, 1), ("path", 5, 1), ("pathr", 6, 1)]
+    for (a, n, ml) in plan:
+        f = hitobj_cases(ctx, a, n, ml)
+        summ = harness(ctx, ["hitobj", "replay", "--prop", "C14", "--spellings", "2"], cases_file=f, name="hitobj-" + a,
+                       timeout=3600)
+        report_mismatches(ctx, summ, "hit-object decoding differs from the HitObjectLine specification (alphabet %s)" % a)
+    ctx.assumptions += ["slider paths are spelled relative to an object at (10,10) with the four named points of PathString",
+                        "the spelling table harness/src/hitobj.rs", "numeric values are integers (plus a truncated fraction class)"]
+    return finish(ctx, "model_checking",
+                  "TLC enumerates abstract hit-object lines (every type byte, every sound byte, combo sequences, numeric classes, bank-info "
+                  "shapes, node lists, every path token string up to the bound) and checks the structural invariants of the decoded "
+                  "objects; each enumerated line sequence is spelled twice and fed to the real parse_hit_objects on its public state with the "
+                  "newest object compared field by field after every line; non-trivial = distinct sequences producing at least one object")
+
+
+def check_C06(ctx):
+    thorough = ctx.tier == "thorough"
+    for m in ("PathString", "Samples", "HitObjectLine", "TimingLines"):
+        sany(ctx, m)
+    # the model of the code as pinned (scratch list not cleared) violates the property: keep that on record
+    hitobj_cases(ctx, "residue", 4, 2, clear=False, emit=False, invariants=("RejectedHaveNoEffect",), expect_violation=True)
+    plan = [("residue", 4, 2), ("combo", 0, 3), ("num", 0, 2), ("nodes", 0, 2 if thorough else 1), ("bank", 0, 2 if thorough else 1)]
+    if thorough:
+        plan += [("residue", 5, 2), ("residue", 4, 3), ("path", 4, 1)]
+    for (a, n, ml) in plan:
+        f = hitobj_cases(ctx, a, n, ml)
+        summ = harness(ctx, ["hitobj", "replay", "--prop", "C06", "--spellings", "2"], cases_file=f, name="hitobj-" + a,
+                       timeout=3600)
+        report_mismatches(ctx, summ, "a rejected hit-object line has an effect (alphabet %s)" % a)
+    # timing section: Reject is a stutter in TimingLines; the replay compares the lists
+    f = timing_cases(ctx, "AlphaShape", "GensTwo", 3 if thorough else 2)
+    summ = harness(ctx, ["timing", "replay", "--spellings", "2"], cases_file=f, name="timing-replay", timeout=3600)
+    report_mismatches(ctx, summ, "a rejected timing line has an effect")
+    ctx.assumptions += ["key/value, event and colour sections are covered by the C11 check (Records), which asserts the same stutter property"]
+    return finish(ctx, "model_checking",
+                  "HitObjectLine models the state one line can pass to the next (last object, scratch control-point list); TLC checks that "
+                  "the object list is a fold of the accepted lines only, for all sequences up to the bound over alphabets of valid records and "
+                  "every rejection class (including failures deep inside multi-segment paths); each sequence is replayed line by line on the "
+                  "public parser state (verdict, objects, scratch list) and through decode(file) == decode(file minus rejected lines); "
+                  "non-trivial = distinct sequences containing at least one rejected line")
